@@ -224,9 +224,38 @@ static void pillar_phase(int P, int k, const Cfg &c) {
     vector<int> idx(k, 0);
     do { if (ctx.stopped()) return; if (!ctx.next()) continue; vector<PConn> C; for (int i : idx) C.push_back(al[i]); ctx.count("states"); ctx.sample(pstr(C[0]) + " " + pstr(C[1]) + " ...", 1); run_pillars(P, C, c); ctx.done_case(); } while (mcx::odo_next(idx, (int)al.size()));
 }
+// Witness scenes (author's inputs of the seeded change 'point orders not cleared between the x and y passes'; no enumerated family here produces the
+// ingredient -- the x pass moving the verticals at BOTH ends of a shared horizontal stretch so that the end where the two connectors split in opposite
+// directions changes sides).  Each scene in the four frames that keep the axes (identity, the two mirrors, the half turn: the x pass runs before the y
+// pass, so a quarter turn is a different input).  The corridors are many times wider than the nudging distance; the clause is the property's first
+// sentence read directly: no two connectors without a common endpoint run collinear and overlapping over a positive length; endpoints unmoved.
+struct WConn { double x0, y0; unsigned d0; double x1, y1; unsigned d1; };
+struct WScene { const char *name; bool unifying; vector<array<double, 4>> shapes; vector<WConn> conns; };
+static unsigned wdir(int k, unsigned d) { if (d == ConnDirAll || d == ConnDirNone) return d; unsigned r = 0; if (d & ConnDirUp) r |= (k & 2) ? ConnDirDown : ConnDirUp; if (d & ConnDirDown) r |= (k & 2) ? ConnDirUp : ConnDirDown; if (d & ConnDirLeft) r |= (k & 1) ? ConnDirRight : ConnDirLeft; if (d & ConnDirRight) r |= (k & 1) ? ConnDirLeft : ConnDirRight; return r; }
+static void witness_phase() {
+    static const vector<WScene> W = {
+        {"A", false, {{{140, 25, 160, 75}}, {{140, 140, 160, 200}}, {{240, 70, 260, 90}}, {{240, 175, 260, 225}}, {{40, 150, 60, 210}}}, {{240, 80, ConnDirLeft, 140, 170, ConnDirLeft}, {75, 65, ConnDirRight, 240, 195, ConnDirLeft}}},
+        {"B", true, {{{35, 390, 85, 430}}, {{125, 35, 155, 65}}, {{110, 275, 170, 345}}}, {{40, 335, ConnDirDown, 140, 65, ConnDirDown}, {75, 40, ConnDirRight, 170, 310, ConnDirRight}, {135, 65, ConnDirDown, 140, 310, ConnDirAll}}}};
+    ctx.phase("witness scenes (two / three connectors round 3-5 shapes, direction-restricted ends, buffer 8, nudging distance 6) in the four axis-preserving frames");
+    for (size_t w = 0; w < W.size(); w++) for (int k = 0; k < 4; k++) { if (!ctx.next()) continue; ctx.count("states"); ctx.count("nontrivial"); ctx.count("evaluations"); ctx.count("transitions");
+        string desc = mcx::fmt("witness scene %s frame %s", W[w].name, k == 0 ? "as given" : k == 1 ? "mirrored in x" : k == 2 ? "mirrored in y" : "half turn"); ctx.sample(desc, 1); ctx.announce(desc);
+        auto fx = [&](double x) { return (k & 1) ? 500 - x : x; }; auto fy = [&](double y) { return (k & 2) ? 500 - y : y; };
+        try { Router *r = new Router(OrthogonalRouting); r->setRoutingParameter(segmentPenalty, 50); r->setRoutingParameter(idealNudgingDistance, 6); r->setRoutingParameter(shapeBufferDistance, 8); r->setRoutingOption(performUnifyingNudgingPreprocessingStep, W[w].unifying);
+            for (auto &sh : W[w].shapes) { Rectangle rc(Point(min(fx(sh[0]), fx(sh[2])), min(fy(sh[1]), fy(sh[3]))), Point(max(fx(sh[0]), fx(sh[2])), max(fy(sh[1]), fy(sh[3])))); new ShapeRef(r, rc); }
+            vector<ConnRef *> cs; for (auto &c : W[w].conns) cs.push_back(new ConnRef(r, ConnEnd(Point(fx(c.x0), fy(c.y0)), (ConnDirFlags)wdir(k, c.d0)), ConnEnd(Point(fx(c.x1), fy(c.y1)), (ConnDirFlags)wdir(k, c.d1))));
+            r->processTransaction();
+            for (size_t a = 0; a < cs.size(); a++) { const PolyLine &da = cs[a]->displayRoute(); const WConn &ca = W[w].conns[a];
+                if (da.size() < 2 || da.ps[0].x != fx(ca.x0) || da.ps[0].y != fy(ca.y0) || da.ps[da.size() - 1].x != fx(ca.x1) || da.ps[da.size() - 1].y != fy(ca.y1)) ctx.violation("endpoint_moved", {"witness"}, desc, rstr(da));
+                for (size_t b = a + 1; b < cs.size(); b++) { const WConn &cb = W[w].conns[b]; bool common = (ca.x0 == cb.x0 && ca.y0 == cb.y0) || (ca.x0 == cb.x1 && ca.y0 == cb.y1) || (ca.x1 == cb.x0 && ca.y1 == cb.y0) || (ca.x1 == cb.x1 && ca.y1 == cb.y1); if (common) continue;
+                    for (auto &sa : segs(da)) for (auto &sb : segs(cs[b]->displayRoute())) { double dist; double ol = overlapLen(sa, sb, dist); if (ol > 1e-6 && dist < 1e-9) { ctx.violation("shared_path_not_separated", {"witness"}, desc, mcx::fmt("connectors %zu and %zu overlap over %g: ", a, b, ol) + rstr(da) + " | " + rstr(cs[b]->displayRoute())); goto done; } } } }
+            done: delete r;
+        } catch (vpsc::CriticalFailure &f) { ctx.library_abort(f.what(), desc); }
+        ctx.done_case(); }
+}
 int main(int argc, char **argv) {
     ctx.init(argc, argv);
     bool T = ctx.thorough();
+    witness_phase();
     for (double nd : {1.0, 4.0, 12.0}) for (unsigned o = 0; o < 16; o++) { phase(2, {nd, 1, o, 0, false}); phase(3, {nd, 1, o, 0, false}); phase(2, {nd, 2, o, 0, false}); phase(2, {nd, 1, o, 0, true}); }
     for (double nd : {4.0, 12.0}) for (unsigned o : {0u, 2u, 15u}) { phase(3, {nd, 2, o, 0, false}); phase(3, {nd, 1, o, 0, true}); }
     phase(4, {4, 1, 2, 0, false}); phase(4, {4, 2, 15, 0, false});
